@@ -296,7 +296,12 @@ Definition unknown_registrations (sites : list (string * string * string)) : lis
                            (List.length (filter (rkey_eqb k) ks))) ks.
 
 (* ---------------------------------------------------------------- native modules *)
+(* since the round-4 repair (Extracted.native_caps_consult_std_bits) the capabilities the VM itself knows
+   (fs / net / exec) also need their capability bit *)
+Definition std_bit_off (c : config) (cap : string) : bool :=
+  native_caps_consult_std_bits && match sassoc cap cap_bits with Some bit => negb (cap_bit c bit) | None => false end.
 Definition check_native_capability (c : config) (cap : string) : bool :=
+  if std_bit_off c cap then false else
   if smem cap (denied c) then false
   else match allowed c with
        | [] => true
@@ -375,7 +380,11 @@ Section NativePolicy.
   Definition manifest_for_before_fix (r : route) (project embedded : option manifest) : option manifest :=
     match r with RSource => project | RAvbc => embedded | RAasm => None end.
   (* policy looked up by the last path segment *)
-  Definition module_policy (m : manifest) (path : list string) : option policy := sassoc (last path "") m.
+  (* ... and, since the round-4 repair (Extracted.policy_lookup_tries_dotted_path), first by the dotted import path *)
+  Definition module_policy (m : manifest) (path : list string) : option policy :=
+    if policy_lookup_tries_dotted_path then
+      match sassoc (String.concat "." path) m with Some p => Some p | None => sassoc (last path "") m end
+    else sassoc (last path "") m.
   Definition route_decision (r : route) (c : config) (project embedded : option manifest)
              (path : list string) (f : nfile) : list event :=
     native_module_decision c
